@@ -113,12 +113,13 @@ def run_case(case):
     return res
 
 
-_TEXT_ALPHA = "abc xyz\n\t[]0123;m?HJ~é中"
+_TEXT_ALPHA = "abc xyz\n\t[]0123;m?HJ~é中%ds{}"
 TEXT = st.one_of(st.text(alphabet=_TEXT_ALPHA, min_size=1, max_size=5), st.text(alphabet=_TEXT_ALPHA, min_size=1, max_size=5),
                  st.text(alphabet=_TEXT_ALPHA, min_size=30, max_size=200))
 FINALS = "mmmmHJKABCDfGsudhlr@`~"
 SGR_PARAMS = st.one_of(
     st.sampled_from([[10 ** 19], [2 ** 64, 1], [int("7" * 400)], [0] * 40, [1, 31] * 12]),
+    st.sampled_from([[38, 5], [48, 5], [38, 2, 255, 128], [1, 48, 5], [38], [48], [38, 2], [58, 5, 1], [38, 5, 1, 48]]),
     st.lists(st.sampled_from([0, 1, 2, 3, 4, 5, 7, 22, 24, 27, 31, 32, 39, 41, 44, 49, 90, 97, 100]), min_size=0, max_size=3),
     st.sampled_from([[38, 5, 196], [48, 5, 21], [38, 2, 1, 2, 3], [1, 31], [0, 1], [10, 20], [2], [999]]),
 )
@@ -154,6 +155,7 @@ REAL_WORLD = [
     "\x1b[mreset only",
     "\x1b[A\x1b[2Kup and erase\x1b[1B",
     "no escapes at all\njust text",
+    "progress 100% done \x1b[38mweird\x1b[0m and %d %s %(x)s %% too",
     "".join("\x1b[%dm%s\x1b[0m " % (90 + i % 8, "word%d" % i) for i in range(30)) + "\n",
     "".join("\x1b[38;5;%dmx" % i for i in range(40)) + "\x1b[0m",
     "\x1b[31mred\x1b[39m \x1bMline1\nline2",
